@@ -4,6 +4,7 @@
 import WB.Model.C29
 import Mathlib.Data.List.Basic
 import Mathlib.Data.Rat.Floor
+import Mathlib.Algebra.BigOperators.Group.List.Basic
 import Mathlib.Algebra.Order.Field.Rat
 import Mathlib.Tactic.Linarith
 import Mathlib.Tactic.Ring
@@ -69,6 +70,26 @@ theorem cumsum_step : ∀ (l : List Rat) (s : Rat) (i : Nat), i < l.length →
     have ih := cumsum_step l (s + x) i (by simpa using h)
     rw [cumsumFrom]
     simpa using ih
+
+/-- the `i`-th entry of the cumulative sum is the start value plus the sum of the first `i` steps -/
+theorem cumsum_getD : ∀ (l : List Rat) (s : Rat) (i : Nat), i ≤ l.length →
+    (s :: cumsumFrom s l).getD i 0 = s + (l.take i).sum
+  | _, s, 0, _ => by simp
+  | [], _, i + 1, h => by simp at h
+  | x :: l, s, i + 1, h => by
+    have ih := cumsum_getD l (s + x) i (by simpa using h)
+    rw [cumsumFrom]
+    simp only [List.getD_cons_succ, List.take_succ_cons, List.sum_cons]
+    rw [ih]; ring
+
+/-- the chord-length rule (NOT what the code does): the coordinate of a point is the straight-line distance from
+    the start of the path.  One-dimensional Cartesian positions suffice for the counterexample. -/
+def chordLine (xs : List Rat) : List Rat := xs.map (fun x => absR (x - xs.headD 0))
+
+/-- Cartesian step lengths of one-dimensional positions -/
+def steps1 : List Rat → List Rat
+  | a :: b :: l => absR (b - a) :: steps1 (b :: l)
+  | _ => []
 
 theorem klineSteps_nonneg (d : List Rat) (breaks : List Nat) (thresh : Option Rat) (hd : ∀ x ∈ d, 0 ≤ x) :
     ∀ y ∈ klineSteps d breaks thresh, 0 ≤ y := by
